@@ -2,6 +2,7 @@ from shexer.core.shexing.strategy.minimal_iri_strategy.abstract_min_iri_strategy
 import re
 
 _SEP_CHARS = re.compile("[:/#]")
+_BARE_SCHEMES = ("http:", "http:/", "http://", "https:", "https:/", "https://")
 
 
 class AnnotateMinIriStrategy(AbstractMinIriStrategy):
@@ -32,6 +33,6 @@ class AnnotateMinIriStrategy(AbstractMinIriStrategy):
         candidate_min_iri = backwards_str[last_sep_char.start():][::-1]
         if len(candidate_min_iri) < 3:  # Just too short. Kind of an arbitrary number
             return None
-        if candidate_min_iri.startswith("http") and len(candidate_min_iri) < 9:  # http:// or https:// alone (https:// has 8 chars)
+        if candidate_min_iri in _BARE_SCHEMES:  # http:// or https:// alone
             return None
         return candidate_min_iri  # Let's say it is a worthy one
